@@ -57,9 +57,22 @@ struct Rd {
         return v;
     }
     int64_t sint() {
-        uint64_t v = uint();
-        int64_t m = (int64_t)(v >> 1);
-        return (v & 1) ? -m : m;
+        // sign in the lowest bit, magnitude above it: 65 bits for the most negative 64-bit value
+        unsigned __int128 v = 0;
+        int shift = 0;
+        while (true) {
+            uint8_t b = byte();
+            if (shift > 63 && (b & 0x7C)) throw Failure{"signed integer above 64 bits"};
+            v |= (unsigned __int128)(b & 0x7F) << shift;
+            if (!(b & 0x80)) break;
+            shift += 7;
+            if (shift > 70) throw Failure{"signed integer too long"};
+        }
+        bool neg = (v & 1) != 0;
+        unsigned __int128 m = v >> 1;
+        if (m > ((unsigned __int128)1 << 63) || (m == ((unsigned __int128)1 << 63) && !neg)) throw Failure{"signed integer above 64 bits"};
+        if (m == ((unsigned __int128)1 << 63)) return INT64_MIN;
+        return neg ? -(int64_t)(uint64_t)m : (int64_t)(uint64_t)m;
     }
     double real() {
         uint64_t t = uint();
